@@ -19,10 +19,15 @@ import (
 	"go.mongodb.org/mongo-driver/mongo/options"
 
 	"github.com/256dpi/lungo"
+	"github.com/256dpi/lungo/bsonkit"
 )
 
 // scribble overwrites, in place, everything reachable from v that shares
 // memory with it: elements of documents and arrays, bytes of binaries.
+// scribbleBinaries is switched off while the containers of engine-level
+// arguments are overwritten (their binaries have been dealt with before).
+var scribbleBinaries = true
+
 func scribble(v interface{}) {
 	switch x := v.(type) {
 	case bson.D:
@@ -51,14 +56,42 @@ func scribble(v interface{}) {
 			x[k] = "SCRIBBLED"
 		}
 	case primitive.Binary:
-		for i := range x.Data {
-			x.Data[i] ^= 0xff
+		if scribbleBinaries {
+			for i := range x.Data {
+				x.Data[i] ^= 0xff
+			}
 		}
 	case []bson.D:
 		for i := range x {
 			scribble(x[i])
 		}
 	}
+}
+
+// flipBinaries flips the bytes of every binary reachable from v and leaves the
+// containers as they are; it returns whether it found a non-empty binary.
+func flipBinaries(v interface{}) bool {
+	found := false
+	switch x := v.(type) {
+	case bson.D:
+		for i := range x {
+			found = flipBinaries(x[i].Value) || found
+		}
+	case *bson.D:
+		if x != nil {
+			found = flipBinaries(*x)
+		}
+	case bson.A:
+		for i := range x {
+			found = flipBinaries(x[i]) || found
+		}
+	case primitive.Binary:
+		for i := range x.Data {
+			x.Data[i] ^= 0xff
+			found = true
+		}
+	}
+	return found
 }
 
 func marshalAny(v interface{}) string {
@@ -214,9 +247,141 @@ func runAliasHistory(r *rng, st *oracleStats, add func(sig, what string, detail 
 			snapDumps = append(snapDumps, byteDump(c))
 		}
 	}
+	// engine-level writes (Engine.Begin -> Transaction.Insert / Replace / Bulk ->
+	// Engine.Commit): the documents are handed over as *bson.D and must be
+	// cloned by the transaction (transaction.go, mongokit/collection.go)
+	handle := lungo.Handle{"db", "c"}
+	engineWrite := func(op string, args []interface{}, fn func(txn *lungo.Transaction) error) {
+		var before []string
+		for _, a := range args {
+			before = append(before, marshalAny(a))
+		}
+		txn, err := engine.Begin(ctx, true)
+		if err != nil {
+			return
+		}
+		if err := fn(txn); err != nil {
+			engine.Abort(txn)
+		} else if err := engine.Commit(txn); err != nil {
+			engine.Abort(txn)
+		}
+		nontrivial = true
+		// first the bytes of binaries only (bsonkit.Clone documents that it shares
+		// them), under a signature of its own; then every container
+		for k, a := range args {
+			if marshalAny(a) != before[k] {
+				add("C17:call-modified-argument:"+op, "the call modified one of its arguments", op)
+			}
+		}
+		d0 := dumpAll()
+		flipped := false
+		for _, a := range args {
+			flipped = flipBinaries(a) || flipped
+		}
+		if d1 := dumpAll(); d1 != d0 {
+			add("C17:engine-level-argument-binary-bytes-shared", "overwriting the bytes of a Binary inside a document handed to "+op+" after the commit changed the stored document", op)
+		}
+		if flipped {
+			for k := range before {
+				before[k] = marshalAny(args[k])
+			}
+		}
+		scribbleBinaries = false
+		check(op, args, before, nil)
+		scribbleBinaries = true
+	}
+	// a stored document to replace: a private copy of its _id
+	storedID := func() (interface{}, bool) {
+		var ids []interface{}
+		if ns := engine.Catalog().Namespaces[handle]; ns != nil {
+			for _, d := range ns.Documents.List {
+				for _, e := range *d {
+					if e.Key == "_id" {
+						ids = append(ids, e.Value)
+					}
+				}
+			}
+		}
+		if len(ids) == 0 {
+			return nil, false
+		}
+		var cp bson.D
+		raw, err := bson.Marshal(bson.D{{Key: "v", Value: pick(r, ids)}})
+		if err != nil || bson.Unmarshal(raw, &cp) != nil {
+			return nil, false
+		}
+		return normalize(cp[0].Value), true
+	}
 	steps := 6 + r.intn(15)
 	for s := 0; s < steps; s++ {
 		st.Dist["calls"]++
+		if r.chance(1, 5) {
+			switch r.intn(4) {
+			case 3:
+				// update operands and (on the upsert path) filter values end up in stored documents
+				id, ok := storedID()
+				up := !ok || r.chance(1, 3)
+				if up {
+					id = g.containerID()
+				}
+				q := bson.D{{Key: "_id", Value: id}}
+				if up {
+					q = append(q, bson.E{Key: "g", Value: bson.D{{Key: "$eq", Value: g.value(2)}}})
+				}
+				u := bson.D{{Key: "$set", Value: bson.D{{Key: "b", Value: g.value(2)}}}, {Key: "$push", Value: bson.D{{Key: "p", Value: g.value(2)}}}}
+				engineWrite("Transaction.Update", []interface{}{&q, &u}, func(txn *lungo.Transaction) error {
+					_, err := txn.Update(handle, &q, nil, &u, 0, 1, up, nil)
+					return err
+				})
+			case 0:
+				d1, d2 := g.doc(true), g.doc(r.chance(1, 2))
+				engineWrite("Transaction.Insert", []interface{}{&d1, &d2}, func(txn *lungo.Transaction) error {
+					_, err := txn.Insert(handle, bsonkit.List{&d1, &d2}, r.chance(1, 2))
+					return err
+				})
+			case 1:
+				id, ok := storedID()
+				if !ok {
+					id = g.containerID()
+				}
+				q := bson.D{{Key: "_id", Value: id}}
+				rp := g.doc(false)
+				if r.chance(2, 3) {
+					// the replacement carries the _id of the document it replaces (a second private copy)
+					id2, _ := storedID()
+					if ok && marshalAny(id2) == marshalAny(id) {
+						rp = append(bson.D{{Key: "_id", Value: id2}}, rp...)
+					}
+				}
+				up := r.chance(1, 3)
+				engineWrite("Transaction.Replace", []interface{}{&q, &rp}, func(txn *lungo.Transaction) error {
+					_, err := txn.Replace(handle, &q, nil, &rp, up)
+					return err
+				})
+			default:
+				ins := g.doc(true)
+				id, ok := storedID()
+				if !ok {
+					id = g.containerID()
+				}
+				q := bson.D{{Key: "_id", Value: id}}
+				rp := append(bson.D{{Key: "_id", Value: id}}, g.doc(false)...)
+				if raw, err := bson.Marshal(rp); err == nil {
+					var cp bson.D
+					if bson.Unmarshal(raw, &cp) == nil {
+						rp = normalize(cp).(bson.D)
+					}
+				}
+				engineWrite("Transaction.Bulk", []interface{}{&ins, &q, &rp}, func(txn *lungo.Transaction) error {
+					_, err := txn.Bulk(handle, []lungo.Operation{
+						{Opcode: lungo.Insert, Document: &ins},
+						{Opcode: lungo.Replace, Filter: &q, Document: &rp, Upsert: r.chance(1, 3)},
+					}, r.chance(1, 2))
+					return err
+				})
+			}
+			continue
+		}
 		switch r.intn(10) {
 		case 0, 1, 2:
 			d := g.doc(r.chance(4, 5))
